@@ -247,7 +247,7 @@ def build(S: Sources) -> Unit:
     hs = [
         KaniHarness("verif_c14::list_benches_lists", "complete", covers="Divan::list_benches -> run_action(list action)"),
         KaniHarness("verif_c14::terse_list_matches_run", "bounded", bound="one tree: group g { a, b[x, y] }; all 27 x 3 ignore / flag combinations",
-                    covers="Divan::run_tree_list (ignore inheritance, one line per case)", tier="thorough"),
+                    covers="Divan::run_tree_list (ignore inheritance, one line per case)", tier="experimental"),
     ]
     return Unit(
         property_id="C14",
